@@ -87,7 +87,7 @@ func (e *SExpr) String() string {
 }
 
 // watchRe: callee expressions whose calls a contract refers to through ncalls / callarg / callret
-var watchRe = regexp.MustCompile(`(ncalls|callarg|callret)\("([^"]+)"`)
+var watchRe = regexp.MustCompile(`(ncalls|callarg|callret|callrecv)\("([^"]+)"`)
 
 var roleAtRe = regexp.MustCompile(`\$[A-Za-z]+@[0-9]+(\.[0-9]+)*`)
 
